@@ -95,6 +95,7 @@ Why(s0, e) ==
     [] e.ev = "wasted" -> {"wasted"}
     [] e.ev = "stats" -> {"stats"}
     [] e.ev = "skip" -> {"places"}
+    [] e.ev = "PANIC" -> {"panic"}
     [] OTHER -> {"event"}
 Accepted == IF TLCGet(1) = Len(Rec) + 1 THEN TRUE
             ELSE PrintT("REJECTED at line " \o ToString(<<TLCGet(1), "why", Why(TLCGet(2), Rec[TLCGet(1)]), Rec[TLCGet(1)]>>)) /\ FALSE
